@@ -97,8 +97,16 @@ func runC06(e *Env) error {
 		}
 		return p
 	}
+	// the include tag that opens the sandbox, with every other option it can carry: `only` and `with` restrict or add
+	// variables, they never lift the policy
+	allVars := "{'x': x, 'xs': xs, 't': t, 'f': f, 'zero': zero, 'nul': nul, 'plainmap': plainmap}"
+	incForms := []string{"{% include 'box' sandboxed %}", "{% include 'box' with " + allVars + " only sandboxed %}", "{% include 'box' with " + allVars + " sandboxed only %}",
+		"{% include 'box' with {'extra': 1} sandboxed %}", "{% include 'box' ignore missing sandboxed %}", "{% include 'box' ignore missing with " + allVars + " only sandboxed %}",
+		"{% include 'box' sandboxed with " + allVars + " only %}", "{% include 'b' ~ 'ox' sandboxed %}"}
+	formTick := 0
+	incForm := incForms[0]
 	mk := func(tpls map[string]string, allowBad bool, outsideUse bool) *Case {
-		main := "{% include 'box' sandboxed %}"
+		main := incForm
 		if outsideUse {
 			main = "{{ x|bad }}{{ badfn() }}" + main // outside the sandbox the includer keeps its normal permissions
 		}
@@ -126,6 +134,9 @@ func runC06(e *Env) error {
 				continue // a macro definition nested in a macro body is not at the top level of its template
 			}
 			tpls := c06Templates(route, pos.src)
+			incForm = incForms[formTick%len(incForms)]
+			formTick++
+			r.Hit("include-form:" + incForm[len("{% include "):])
 			// 1. forbidden: must fail with a security violation and never invoke the callback
 			c := mk(tpls, false, false)
 			im, _, _, err := compareCase(e, c, "render-model-c06", "correspondence (Lean pipeline with sandbox flags and event trace vs real engine)")
